@@ -6,8 +6,8 @@ CONSTANTS
   Errs = {"e1", "e2"}
   Invs = {"i1"}
   Conns = {"c1", "c2"}
-  OmitChoices = {0, 2, 999999999}
-  InitStamps = {0, 1}
+  OmitChoices = {0, 999999999}
+  InitStamps = {0}
   NoDefault = {"p1"}
   InitScopeSets = {{}, {"all"}}
   HiddenChoices = {{}}
@@ -19,7 +19,7 @@ CONSTANTS
   LiteParams = {"p2"}
   GenConns = {"c2"}
   GenDefaults = {"a"}
-  GenLiteOmit = {2}
+  GenLiteOmit = {0}
   GenExtra = {"At", "Nest", "Deact", "Untouched"}
 CONSTRAINT Bound
 ACTION_CONSTRAINT EmitStep
